@@ -103,14 +103,24 @@ class Recorder:
             self.events.append({"ev": "exc", "what": "dump_to_file: %r" % (e,)})
             return None
         pairs = []
+        bad = []
         for line in buf.getvalue().splitlines():
             parts = line.split("\t")
-            if len(parts) != 2:
-                self.events.append({"ev": "exc", "what": "dump line not <orig>TAB<anon>: %r" % line})
-                return None
-            o, a = (int(ipaddress.ip_address(p)) if not p.isdigit() else int(p) for p in parts)
-            pairs.append([bits_of(o, self.w), bits_of(a, self.w)])
-        self.events.append({"ev": "dump", "inst": self.inst, "pairs": pairs})
+            try:
+                if len(parts) != 2:
+                    raise ValueError("not <orig>TAB<anon>")
+                vals = []
+                for p in parts:
+                    if self.w == 32:
+                        vals.append(int(ipaddress.IPv4Address(p)))
+                    elif self.w == 128:
+                        vals.append(int(ipaddress.IPv6Address(p)))   # an IPv4-looking line in an IPv6 dump is malformed
+                    else:
+                        vals.append(int(p))
+                pairs.append([bits_of(vals[0], self.w), bits_of(vals[1], self.w)])
+            except ValueError:
+                bad.append(line[:80])
+        self.events.append({"ev": "dump", "inst": self.inst, "pairs": pairs, "bad": bad})
         return pairs
 
 
